@@ -410,6 +410,11 @@ MUTANTS = [
       edits=[(NODE, REGISTER, "        d.addBoth(_deliver, self._active_segment)\n"), (NODE, CAPTURE, "")]),
     M("benign-completion-capture-after-decode-started", NODE, CAPTURE + DECODE, DECODE + CAPTURE, None),
     M("benign-completion-capture-copied", NODE, CAPTURE, "        active = self._active_segment\n        fetcher = active\n", None),
+    M("benign-completion-fetcher-hands-itself-in", NODE, "    def process_blocks(self, segnum, blocks):\n",
+      "    def process_blocks(self, segnum, blocks, sf):\n", None,
+      edits=[(NODE, CAPTURE, ""), (NODE, GUARD_TEST, "            if self._active_segment is not sf:\n"),
+             (FETCHER, "            self._node.process_blocks(self.segnum, self._blocks)\n",
+              "            self._node.process_blocks(self.segnum, self._blocks, self)\n")]),
     # ---- C04.13 code that runs after the gap touches the slot only when it still owns it
     M("completion-guard-removed", NODE, GUARD_TEST + GUARD_BODY, "", "C04.13"),          # the defect repaired by 189a9a9
     M("hash-check-asserts-active-segment", NODE, "        start = now()\n        assert self.segment_size is not None\n",
@@ -435,6 +440,10 @@ MUTANTS = [
       "            self._download_status.add_misc_event(\"process_block\", start, now())\n            self._start_new_segment()\n",
       "            self._download_status.add_misc_event(\"process_block\", start, now())\n            eventually(self._start_new_segment)\n",
       None),
+    M("benign-start-new-segment-falsy-slot", NODE, "        if self._active_segment is None and self._segment_requests:\n",
+      "        if not self._active_segment and self._segment_requests:\n", None),
+    M("benign-start-new-segment-wakes-through-slot", NODE, "            fetcher.add_shares(active_shares) # this triggers the loop\n",
+      "            self._active_segment.add_shares(active_shares)\n", None),
     # the synchronous retirers are not continuations: rewriting them does not concern C04.13 (nor trip the other rules)
     M("benign-synchronous-retirers-rewritten", NODE, "        assert sf is self._active_segment\n",
       "        assert self._active_segment is sf\n", None,
